@@ -73,6 +73,36 @@ FORMULAS: List[Tuple[str, str, str, str, Optional[str], str]] = [
 ]
 
 
+def eval_on_code_vectors(ctx: Ctx, versions, expr: ast.AST, base_name: str, sign: int, prelude=()):
+    """evaluate `expr` (engine MINI) for each observed code-object shape of each interpreter in `versions` (FACTS
+    localsplus_vectors: co_* attributes and the number of fast-locals slots the frame really has), with `base_name` = 4096 and
+    wordsize = 8; the value must be 4096 + sign * 8 * slots.  -> ("ok", n) | ("bad", (version, vector name, got, want)) | ("unsupported", why)"""
+    from types import SimpleNamespace as NS
+    from ..minieval import Mini, Raised, Unsupported
+    n = 0
+    for v in versions:
+        for vec in ctx.F["interp"][v]["localsplus_vectors"]:
+            co = NS(co_nlocals=vec["co_nlocals"], co_varnames=tuple(vec["co_varnames"]), co_cellvars=tuple(vec["co_cellvars"]), co_freevars=tuple(vec["co_freevars"]),
+                    co_stacksize=vec["co_stacksize"], co_argcount=vec["co_argcount"], co_name=vec["name"], co_kwonlyargcount=vec.get("co_kwonlyargcount", 0),
+                    co_posonlyargcount=vec.get("co_posonlyargcount", 0), co_flags=vec.get("co_flags", 0))
+            env = {base_name: 4096, "wordsize": 8, "co": co, "code": co, "frame": NS(f_code=co), "inspect": NS(CO_VARARGS=4, CO_VARKEYWORDS=8, CO_GENERATOR=32, CO_COROUTINE=128)}
+            try:
+                m_ = Mini(env, {}, {"set": lambda x: tuple(dict.fromkeys(x)), "frozenset": lambda x: tuple(dict.fromkeys(x))})
+                for st_ in prelude:
+                    try:
+                        m_.stmt(st_)
+                    except Unsupported:
+                        pass        # a local the expression may not need; if it does, its evaluation below says so
+                got = m_.expr(expr)
+            except (Unsupported, Raised) as ex:
+                return "unsupported", str(ex)
+            want = 4096 + sign * 8 * vec["slots"]
+            if got != want:
+                return "bad", (v, vec, got, want)
+            n += 1
+    return "ok", n
+
+
 def form1(ctx: Ctx) -> None:
     n = 0
     for mn, q, var, ref, which, why in FORMULAS:
@@ -103,6 +133,18 @@ def form1(ctx: Ctx) -> None:
             node = same[0]
             ctx.R.fail("FORM-1", mod, node, f"{mn}.{q}: `{var}` is computed as `{norm(node)[:90]}`; the layout requires `{ref}` ({why}): every slot address derived from it is shifted, "
                        "so a wrong PyObject* is dereferenced (crash) or the wrong managers are reported on the interpreters that use this module", construct=f"{var} = {norm(node)[:100]}")
+        elif mn == "_lowlevel_cpython_310" and var == "localsplus_offset":
+            # decided on the observed code-object shapes instead of by comparing ingredients
+            kind, info = eval_on_code_vectors(ctx, [v_ for v_ in sorted(ctx.V.all) if v_ in ("3.9", "3.10")], cands[0], "stack_start_offset", -1)
+            if kind == "ok":
+                ctx.R.ok("FORM-1", f"{mn}.{q}: {var} = {norm(cands[0])[:70]}", f"agrees with the observed number of fast-locals slots on {info} code-object shapes (FACTS localsplus_vectors)")
+            elif kind == "bad":
+                v_, vec, got, want = info
+                ctx.R.fail("FORM-1", mod, cands[0], f"{mn}.{q}: `{var}` = `{norm(cands[0])[:80]}` puts f_localsplus {(4096 - got) // 8} slots before the value stack for a function like `{vec['name']}` "
+                           f"(varnames {vec['co_varnames']}, cellvars {vec['co_cellvars']}, freevars {vec['co_freevars']}) on CPython {v_}; the frame has {vec['slots']} ({why}): the block stack, f_iblock and "
+                           "f_lasti are then read at shifted addresses and the frame's contexts are lost", construct=f"{var}: slot count wrong for {vec['name']}-shaped functions on {v_}")
+            else:
+                ctx.R.undecided("FORM-1", f"{mn}.{q}: `{var}` is computed by an expression outside the evaluator's fragment: {info}")
         else:
             ctx.R.undecided("FORM-1", f"{mn}.{q}: `{var}` is computed by an expression with other operands than the reference `{ref}`")
     if n < 7:
